@@ -197,3 +197,10 @@ pub uninterp spec fn err_loc(e: Error) -> Option<Location>;
 /// `err.to_string()` (Display of the crate's Error; text only)
 #[verifier::external_body]
 fn error_to_string(e: &Error) -> (r: String) { unimplemented!() }
+
+/// `v.sort()` / `v.sort_unstable()` (rule R41; no such call exists in the pinned tree): the result is some permutation of the
+/// vector; which one is not modelled
+#[verifier::external_body]
+fn vec_sort_permutes<T>(v: &mut Vec<T>)
+    ensures final(v)@.len() == old(v)@.len(), final(v)@.to_multiset() == old(v)@.to_multiset(),
+{ unimplemented!() }
